@@ -203,10 +203,74 @@ fn emit(out: &mut Out, rt: &tokio::runtime::Runtime, key: &SigningKey, cap: usiz
     if v.lagged {
         out.count("receiver-overrun(lagged)");
     }
+    {
+        // longest run of invalid items buffered directly in front of a valid one (no poll in between)
+        let mut cur = 0usize;
+        let mut best = 0usize;
+        for t in toks {
+            match t.as_str() {
+                "x" | "s" | "w" => cur += 1,
+                "v" => {
+                    best = best.max(cur);
+                    cur = 0;
+                }
+                _ => cur = 0,
+            }
+        }
+        out.count(&format!("invalid-run-before-valid={}", match best { 0 => "0", 1..=7 => "1-7", 8..=30 => "8-30", 31..=33 => "31-33", 34..=62 => "34-62", 63..=65 => "63-65", 66..=126 => "66-126", _ => ">=127" }));
+    }
     out.count_n("yielded", v.yielded as u64);
     for (tag, what) in &v.fails {
         out.oracle_fail(n, tag, what, req.trim_end(), &v.answer);
     }
+}
+
+/// The capacity the node's gossip manager really gives the subscription's broadcast channel, read from the
+/// current source text (`broadcast::channel(N)` of `from_gossip_tx` in p2panda-net/src/gossip/actors/manager.rs).
+fn real_capacity() -> Option<usize> {
+    let src = std::fs::read_to_string("/repo/p2panda-net/src/gossip/actors/manager.rs").ok()?;
+    let at = src.find("_from_gossip_rx) = broadcast::channel(")?;
+    let rest = &src[at + "_from_gossip_rx) = broadcast::channel(".len()..];
+    let digits: String = rest.chars().take_while(|c| c.is_ascii_digit()).collect();
+    digits.parse().ok()
+}
+
+/// Long runs of invalid items buffered in front of a valid one: before the first poll, between polls (the task
+/// idle with its waker registered), two runs in a row, and a run that ends the sequence.
+fn long_runs(out: &mut Out, rt: &tokio::runtime::Runtime, key: &SigningKey, cap: usize, n: usize, kinds: &[&str], rng: &mut Rng) {
+    let run = |rng: &mut Rng, len: usize| -> Vec<String> {
+        (0..len).map(|_| if kinds.len() == 1 { kinds[0].to_string() } else { rng.pick(kinds).to_string() }).collect()
+    };
+    let t = |x: &str| x.to_string();
+    // pre-loaded before the first poll
+    let mut a = run(rng, n);
+    a.push(t("v"));
+    a.push(t("r"));
+    emit(out, rt, key, cap, &a);
+    // between polls: the task went idle on an empty channel first
+    let mut b = vec![t("r")];
+    b.extend(run(rng, n));
+    b.push(t("v"));
+    b.push(t("r"));
+    emit(out, rt, key, cap, &b);
+    // valid, run, valid, run, valid — then one run of the executor; and the same with polls in between
+    let mut c = vec![t("v")];
+    c.extend(run(rng, n));
+    c.push(t("v"));
+    c.extend(run(rng, n / 2 + 1));
+    c.push(t("v"));
+    c.push(t("r"));
+    emit(out, rt, key, cap, &c);
+    let mut d = vec![t("v"), t("r")];
+    d.extend(run(rng, n));
+    d.push(t("v"));
+    d.push(t("r"));
+    d.extend(run(rng, n));
+    d.push(t("r"));
+    d.push(t("v"));
+    d.push(t("r"));
+    emit(out, rt, key, cap, &d);
+    out.count(&format!("long-run:{}", if n >= 32 { ">=32" } else { "<32" }));
 }
 
 fn exhaustive(out: &mut Out, rt: &tokio::runtime::Runtime, key: &SigningKey, cap: usize, alphabet: &[&str], maxlen: usize) {
@@ -273,12 +337,49 @@ fn main() {
     exhaustive(&mut out, &rt, &key, 2, &["v", "x", "r"], len_a);
     exhaustive(&mut out, &rt, &key, 8, &["v", "x", "s", "w", "r", "c"], len_b);
     exhaustive(&mut out, &rt, &key, 1, &["v", "s", "r"], len_b);
-    for _ in 0..n_rand {
-        let cap = *rng.pick(&[1usize, 2, 4, 8, 16, 64]);
+    // long runs of invalid items in front of a valid one, on the capacity the node really uses and on other rings
+    let real_cap = real_capacity();
+    out.extra.insert("gossip_broadcast_capacity_in_source".into(), real_cap.map(|c| c as u64).into());
+    let node_cap = real_cap.unwrap_or(128).next_power_of_two();
+    let boundaries: Vec<usize> = vec![1, 2, 7, 8, 9, 15, 16, 17, 31, 32, 33, 63, 64, 65, 100, 127];
+    let lengths: Vec<usize> = match args.tier {
+        Tier::Quick => boundaries.clone(),
+        _ => (1..=127).collect(),
+    };
+    for n in &lengths {
+        for kinds in [&["x"][..], &["s"][..], &["w"][..], &["x", "s", "w"][..]] {
+            long_runs(&mut out, &rt, &key, node_cap, *n, kinds, &mut rng);
+        }
+        // a ring twice as large (no lag at all) and rings smaller than the run (the run itself overruns: lagged)
+        long_runs(&mut out, &rt, &key, 2 * node_cap, *n, &["x", "s", "w"], &mut rng);
+        long_runs(&mut out, &rt, &key, 64, *n, &["s"], &mut rng);
+        if args.tier != Tier::Quick || boundaries.contains(n) {
+            long_runs(&mut out, &rt, &key, 16, *n, &["x", "s"], &mut rng);
+        }
+    }
+    // runs longer than the node's ring (everything in front of the valid message is lost to lag or invalid)
+    for n in [node_cap - 1, node_cap, node_cap + 1, 2 * node_cap + 3] {
+        long_runs(&mut out, &rt, &key, node_cap, n, &["x", "s", "w"], &mut rng);
+    }
+    if real_cap.is_none() {
+        out.oracle_fail(0, "capacity-not-found", "the broadcast capacity of the gossip manager could not be read from manager.rs", "", "");
+    }
+    for i in 0..n_rand {
+        let cap = if i % 4 == 0 { node_cap } else { *rng.pick(&[1usize, 2, 4, 8, 16, 64]) };
         let len = rng.range(1, rand_len) as usize;
         let mut toks: Vec<String> = vec![];
         let p_run = rng.range(1, 6);
         for _ in 0..len {
+            if rng.chance(1, 25) {
+                // a burst of invalid items
+                let burst = rng.range(20, 140) as usize;
+                let k = *rng.pick(&["x", "s", "w"]);
+                for _ in 0..burst {
+                    toks.push(if rng.chance(1, 8) { rng.pick(&["x", "s", "w"]).to_string() } else { k.to_string() });
+                }
+                toks.push("v".into());
+                continue;
+            }
             let r = rng.below(20);
             let t = if r < p_run {
                 "r"
@@ -301,7 +402,7 @@ fn main() {
         emit(&mut out, &rt, &key, cap, &toks);
     }
     let exhaustive_note = format!(
-        "exhaustive: every sequence of length <= {len_a} over {{valid, invalid, run}} on a capacity-2 ring (overrun = lagged), every sequence of length <= {len_b} over {{valid, garbage, wrong-signature, wrong-version, run, close}} on capacity 8 and over {{valid, wrong-signature, run}} on capacity 1, each followed by a run; random: length <= {rand_len}, capacities 1..64. non-trivial = an invalid item directly before a valid one with nothing pushed afterwards before the run"
+        "exhaustive: every sequence of length <= {len_a} over {{valid, invalid, run}} on a capacity-2 ring (overrun = lagged), every sequence of length <= {len_b} over {{valid, garbage, wrong-signature, wrong-version, run, close}} on capacity 8 and over {{valid, wrong-signature, run}} on capacity 1, each followed by a run; long runs: n invalid items (garbage / wrong signature / wrong version / mixed) buffered in front of a valid one, before the first poll, between polls and twice in a row, for the boundary lengths 1..127 incl. 31/32/33/63/64/65/100/127 (thorough: every n in 1..=127) on the capacity the gossip manager really uses (read from manager.rs), on twice that, on 64 and 16 (run overruns the ring: lagged) and runs longer than the ring; random: length <= {rand_len} with bursts of 20..140 invalid items, capacities 1..64 and the node's. non-trivial = an invalid item directly before a valid one with nothing pushed afterwards before the run"
     );
     out.finish(&exhaustive_note, true);
 }
